@@ -127,7 +127,7 @@ def gen_statements():
     body = src[src.index("Open Scope N_scope.") + len("Open Scope N_scope."):]
     out = ["(* GENERATED from C06_Props.v by tools/c06.py: the theorem statements as Props, for the proof files. *)",
            "From Coq Require Import List NArith Bool Arith.", "From Dae.gen Require Import C06_Extracted.",
-           "From Dae Require Import C06_Spec C06_Model C06_Async C06_Session C06_Clock C06_Key.", "Import ListNotations.", "Open Scope N_scope.", ""]
+           "From Dae Require Import C06_Spec C06_Model C06_Async C06_Session C06_Clock C06_Key C06_HttpVar.", "Import ListNotations.", "Open Scope N_scope.", ""]
     for m in re.finditer(r"(Theorem|Example)\s+(\w+)\s*:(.*?)\nProof\. exact \w+\. Qed\.|(Definition\s+\w+.*?\.)\n", body, re.S):
         if m.group(4):
             mo = re.match(r"Definition\s+(\w+)_open\s*:\s*Prop\s*:=(.*)\.$", m.group(4), re.S)
@@ -441,9 +441,29 @@ def gen_tcp_case(rng, i):
         q = gen_head(rng)
         head = enc_head(q)
         body = rbytes(rng, rng.choice([0, 0, 10, 200]))
+        hostbody = rng.random() < 0.45
+        if hostbody:
+            # the body (or a pipelined second request) carries its own CRLF-delimited Host line: it is NOT the
+            # name of this request - with no Host in the head nothing may be reported, with one, that one
+            other = gen_name(rng)
+            body = rng.choice([
+                b"Host: " + other + b"\r\n\r\n",
+                b"GET /second HTTP/1.1\r\nHost: " + other + b"\r\n\r\n",
+                b"field=1&x=2\r\nhost:" + other + b"\r\nmore\r\n",
+                b"\r\nHOST : " + other + b":8080\r\n",
+                rbytes(rng, 7) + b"\r\nHost: " + other + b"\r\n" + rbytes(rng, 5)])
+            if rng.random() < 0.6:
+                q["headers"] = [kv for kv in q["headers"] if kv[0].lower() != b"host"]
+                head = enc_head(q)
         stream = head + body
-        whole = rng.random() < 0.7
-        chunks = [stream] if whole and rng.random() < 0.5 else ([head, body] if whole and body else cut(rng, stream))
+        whole = rng.random() < 0.7 or hostbody
+        if hostbody:
+            # one read, or cut at a boundary at/after the end of the head (the head is whole in the first read), or anywhere
+            r2 = rng.random()
+            k = rng.choice([len(head), len(head) + 1, len(head) + 2, rng.randint(len(head), len(stream))])
+            chunks = [stream] if r2 < 0.4 else ([stream[:k], stream[k:]] if r2 < 0.8 and 0 < k < len(stream) else cut(rng, stream))
+        else:
+            chunks = [stream] if whole and rng.random() < 0.5 else ([head, body] if whole and body else cut(rng, stream))
         ev = script_of(rng, chunks, rng.choice([[{"d": "", "st": "eof"}], []]))
         meta = {"head": q, "claimed": head}
     else:                 # neither
